@@ -55,6 +55,15 @@ REQUIRE = {
     "programs:select:virtual": 300,
     "programs:zmq:virtual": 300,
     "callbacks_entered": 20000,
+    "callbacks_entered_in_later_runs": 2000,
+    "programs_with_third_run": 20,
+    **{f"programs_with_second_run:{lp}": 20 for lp in ("select", "zmq", "asyncio", "tornado", "trio")},
+    **{f"rerun_after:{k}": 10 for k in ("exit-from-final-alarm", "exit-from-alarm-callback", "boom-from-alarm-callback", "exit-from-watch-callback", "boom-from-watch-callback", "exit-from-idle-callback", "boom-from-idle-callback")},
+    **{f"eval_later_run:{c}": 100 for c in ("alarm-not-early", "alarm-order", "watch-served", "watch-after-remove", "idle-before-quiescent", "idle-after-remove", "exit-silent", "exc-reraised")},
+    "eval_later_run:idle-before-quiescent:idle-registered-for-an-earlier-run": 100,
+    **{f"eval_later_run:idle-before-quiescent:{lp}": 20 for lp in ("select", "zmq", "asyncio", "tornado", "trio")},
+    "enum_two_runs:select": 50,
+    "enum_two_runs:zmq": 50,
     "virtual_blocks": 2000,
 }
 RULE = (
@@ -64,11 +73,16 @@ RULE = (
     "exhaustive over all weak orderings of n_a<=4 alarm-due and n_f<=3 fd-ready events (total <=4 quick / <=5 thorough with every "
     "(actor, action) pair from {remove self, remove sibling (once/twice), re-arm, raise exit, raise Boom, slow}; total 6-7 with "
     "no-op actions in thorough) x ready-report order x idle variants, plus random programs. Real clock: random programs on all six loops. "
-    "distinct = distinct program descriptors; non-trivial = at least one callback was entered"
+    "Programs may call run() two or three times on the same loop object (all loops but twisted): the first run ended by the final alarm, ExitMainLoop or a "
+    "Boom raised from an alarm / watch / idle callback, then new alarms / watches / idle callbacks are registered and run() is called again; every clause "
+    "is judged inside every run. distinct = distinct program descriptors; non-trivial = at least one callback was entered"
 )
 ASSUMES = [
     "due time of an alarm = loop clock read just before alarm() + seconds; 'not before due' tolerates 1e-4 s on real clocks (0.5 us virtual)",
-    "alarm order is judged only for alarms whose due times differ by > 0.5 ms (real) / > 0.5 us (virtual), within one run() segment",
+    "alarm order is judged only for alarms whose due times differ by > 0.5 ms (real) / > 0.5 us (virtual), within one run() segment "
+    "(alarms and watches left pending when run() exits are not owed in the next run(): trio cancels them)",
+    "idle callbacks registered for an earlier run() and not removed are still owed in every later run() on the same loop object, except for trio, "
+    "whose run() clears the idle callbacks on exit (TrioEventLoop._handle_main_loop_exception) -- there only idle callbacks registered after that exit count",
     "'goes quiescent' = the loop enters its OS wait primitive (recorded by a pass-through wrapper on selector.select / zmq poll / "
     "reactor.doIteration / a trio Instrument; virtual: the fake selector advances the clock) with a requested timeout >= 10 ms or none; "
     "the duration of a wait is never used, so host scheduling stalls cannot produce verdicts; Twisted's 1/256 s idle emulation stays below the threshold",
@@ -421,6 +435,20 @@ def virtual_enumeration(ctx, tally, frac):
                         if not ctx.mine(idx):
                             continue
                         one(G.build_enum(loop, na, nf, ranks, action, "reg", unit if loop == "select" else 400, iv), loop, f"enum_idle_variant:{iv}")
+    # D: two run() calls on the same loop object: every weak ordering of n <= 3 events (thorough: n <= 4) x how the first
+    # run ends (final alarm / ExitMainLoop / Boom raised by each event's callback or by the idle callback) x second run
+    for na, nf in [(1, 0), (1, 1), (2, 0), (2, 1), (1, 2)] + ([] if ctx.quick else [(3, 0), (2, 2), (3, 1)]):
+        n = na + nf
+        for ranks in G.weak_orderings(n):
+            for action, iv in [((None, "none", None), "plain"), ((None, "none", None), "boom"), ((None, "none", None), "exit")] + [
+                ((actor, act, None), "plain") for actor in range(n) for act in ("exit", "boom")
+            ]:
+                for second in ("alarms", "watch"):
+                    for loop, unit in variants[:2]:
+                        idx += 1
+                        if not ctx.mine(idx):
+                            continue
+                        one(G.build_enum(loop, na, nf, ranks, action, "reg", unit if loop == "select" else 400, iv, second), loop, f"enum_two_runs:{loop}")
     # A: every weak ordering x every single (actor, action), n <= 4 (quick: n == 4 strided), n == 5 thorough
     for na, nf in splits_small + ([] if ctx.quick else splits_5):
         n = na + nf
